@@ -1416,7 +1416,7 @@ pub fn run_n(cfg: &RunCfg, which: &str, fixed_seqs: Option<u64>) -> Report {
                 }
             }
             if res.panicked {
-                let path = write_replay(&prop, &format!("{}-{}", cfg.seed, seq), &replay_hdr, &lines);
+                let path = write_replay(&prop, &format!("{}-{}", cfg.seed, super::seq_label(seq)), &replay_hdr, &lines);
                 rep.violations.push(Violation { kind: "panic".into(), detail: res.message.clone(), replay: path });
                 continue 'seqs;
             }
@@ -1437,7 +1437,7 @@ pub fn run_n(cfg: &RunCfg, which: &str, fixed_seqs: Option<u64>) -> Report {
             }
             for n in notes { if !rep.notes.contains(&n) { rep.notes.push(n); } }
             if let Some((kind, detail)) = v {
-                let path = write_replay(&prop, &format!("{}-{}", cfg.seed, seq), &replay_hdr, &lines);
+                let path = write_replay(&prop, &format!("{}-{}", cfg.seed, super::seq_label(seq)), &replay_hdr, &lines);
                 rep.violations.push(Violation { kind, detail, replay: path });
                 continue 'seqs;
             }
@@ -1486,7 +1486,7 @@ pub fn run_n(cfg: &RunCfg, which: &str, fixed_seqs: Option<u64>) -> Report {
                 } else { m.clone() };
                 if m_norm != i {
                     agree = false;
-                    let path = write_replay(&prop, &format!("corr-{}-{}", cfg.seed, seq), &replay_hdr, &lines);
+                    let path = write_replay(&prop, &format!("corr-{}-{}", cfg.seed, super::seq_label(seq)), &replay_hdr, &lines);
                     rep.disagreements.push(Disagreement { seq, step, op: b.line.clone(), impl_out: i, model_out: m, replay: path });
                     continue 'seqs;
                 }
